@@ -100,7 +100,7 @@ class CGraph:
         key = (len(self.functionList), tuple(id(f) for f in self.independentFunctionList))
         if getattr(self, '_wic_key', None) != key:
             def storage(v):
-                return getattr(v, 'data', v)
+                return v.data if isinstance(v, algopy.UTPM) else v
             writes = [f for f in self.functionList if is_set(f.setitem)]
             consts = []
             if writes:
